@@ -87,6 +87,15 @@ var hookMu sync.Mutex
 
 // Run executes the case. It never panics; process-level failures are recorded in the Result.
 func (env *Env) Run(c *Case) *Result {
+	res := env.run(c)
+	if res.Infra != "" {
+		InfraCount.Add(1)
+		LastInfra.Store(res.Infra)
+	}
+	return res
+}
+
+func (env *Env) run(c *Case) *Result {
 	res := &Result{}
 	if c.Sched.GOMAXPROCS > 0 {
 		old := runtime.GOMAXPROCS(c.Sched.GOMAXPROCS)
